@@ -169,7 +169,7 @@ Theorem open_admission : forall c s o,
        s_st (fst (step c s (EMsg (MOpen o)))) = Idle /\
        s_conn (fst (step c s (EMsg (MOpen o)))) = ConnClosed).
 Proof.
-  intros c [st att cn ng rt up] o [Hatt Hconn] Hst Hw. cbn in Hatt, Hconn, Hst, Hw. subst st.
+  intros c [st att cn ng rt up im] o [Hatt Hconn] Hst Hw. cbn in Hatt, Hconn, Hst, Hw. subst st.
   assert (att = false) by (destruct att; [destruct Hatt as [H _]; specialize (H eq_refl); discriminate | reflexivity]).
   subst att. destruct cn as [|[|]|]; try discriminate. clear Hatt Hconn Hw.
   rewrite valid_open_iff. unfold valid_openb.
@@ -226,7 +226,7 @@ Theorem enters_openconfirm : forall c s e,
   exists o, e = EMsg (MOpen o) /\ s_st s = OpenSent /\ valid_open c o /\
             negotiated_ok c o (s_neg (fst (step c s e))).
 Proof.
-  intros c [st att cn ng rt up] e [Hatt Hconn] Hne Hto. cbn in Hatt, Hconn, Hne.
+  intros c [st att cn ng rt up im] e [Hatt Hconn] Hne Hto. cbn in Hatt, Hconn, Hne.
   destruct st.
   - no_way att cn Hatt Hconn e Hto.
   - no_way att cn Hatt Hconn e Hto.
@@ -234,8 +234,8 @@ Proof.
   - (* OpenSent *)
     assert (att = false) by (destruct att; [destruct Hatt as [HH _]; specialize (HH eq_refl); discriminate | reflexivity]).
     subst att. clear Hatt. destruct (Hconn eq_refl) as [b Hb]. subst cn. clear Hconn.
-    destruct e as [code|br|ex| | | |m].
-    1-6: exfalso; revert Hto; rdx; repeat (break_match; rdx); discriminate.
+    destruct e as [code|br|ex| | | |rp| |m].
+    1-8: exfalso; revert Hto; rdx; repeat (break_match; rdx); discriminate.
     destruct m as [ | o | ann wd | pr pb pv | c0 s0 | mk len typ avail | n | ].
     1,3-8: exfalso; revert Hto; rdx; repeat (break_match; rdx); try discriminate;
            try (exfalso; eapply frame_of_no_panic; eassumption);
@@ -246,7 +246,7 @@ Proof.
       exfalso. revert Hto. unfold step. cbv beta iota zeta delta [s_st s_conn listens frame_of]. cbn [andb].
       cbv beta iota zeta delta [handle s_st decode].
       destruct (validate_open o); rdx; repeat (break_match; rdx); discriminate.
-    + assert (Hi : inv {| s_st := OpenSent; s_att := false; s_conn := ConnOpen false; s_neg := ng; s_retry := rt; s_upd := up |}).
+    + assert (Hi : inv {| s_st := OpenSent; s_att := false; s_conn := ConnOpen false; s_neg := ng; s_retry := rt; s_upd := up; s_imp := im |}).
       { split; cbn; [split; discriminate | intros _; eexists; reflexivity]. }
       destruct (open_admission c _ o Hi eq_refl eq_refl) as [Hv Hnv].
       destruct (valid_open_dec c o) as [V|V].
